@@ -3,6 +3,7 @@ open Genq.Config
 open Genq.Doc
 open Genq.InputClosure
 open Genq.Lines
+open Genq
 #print axioms C07_casing_never_panics
 #print axioms C07_blank_enum_entry_would_panic
 #print axioms C07_usedLoop_stops
@@ -11,3 +12,4 @@ open Genq.Lines
 #print axioms C07_comment_scan_in_range
 #print axioms C07_old_split_out_of_range_witness
 #print axioms C07_parsePrecedingComment_tie
+#print axioms C07_casing_tie
